@@ -106,6 +106,8 @@ struct Case {
     btype: u8,
     /// batch only: statement mix 0..6
     bmix: u8,
+    /// the statements are conditional ones the node marks as LWT (PreparedStatement::is_confirmed_lwt)
+    lwt: bool,
     /// rotates the value alphabets (timestamp, consistency, bound values)
     n: u64,
 }
@@ -113,7 +115,7 @@ impl Case {
     fn json(&self) -> Value {
         json!({"leg":"session","ext":self.cfg.ext,"generator":self.cfg.generator,"custom_profile":self.cfg.custom_profile,"api":self.api.name(),"select":self.select,
             "vals":self.vals,"page":self.page,"ts":self.ts,"cons":self.cons,"serial":self.serial,"tracing":self.tracing,"idempotent":self.idem,"use_cached_result_metadata":self.cached,
-            "batch_type":self.btype,"batch_mix":self.bmix,"n":self.n})
+            "batch_type":self.btype,"batch_mix":self.bmix,"lwt":self.lwt,"n":self.n})
     }
     fn from_json(v: &Value) -> Case {
         let b = |k: &str| v[k].as_bool().unwrap_or(false);
@@ -132,6 +134,7 @@ impl Case {
             cached: b("use_cached_result_metadata"),
             btype: u("batch_type") as u8,
             bmix: u("batch_mix") as u8,
+            lwt: b("lwt"),
             n: u("n"),
         }
     }
@@ -162,11 +165,23 @@ impl Case {
         }
     }
     fn text(&self) -> &'static str {
-        stmt_text(self.select, self.markers())
+        stmt_text(self.select, self.markers(), self.lwt)
     }
 }
 
-fn stmt_text(select: bool, markers: usize) -> &'static str {
+/// `lwt`: the conditional variant, which the node marks as LWT in its PREPARED answer (rows-returning ones stand in for the
+/// `[applied]` result set of a conditional statement).
+fn stmt_text(select: bool, markers: usize, lwt: bool) -> &'static str {
+    if lwt {
+        return match (select, markers) {
+            (true, 0) => "UPDATE ks.t SET b = 'u' WHERE a = 1 IF EXISTS",
+            (true, 1) => "UPDATE ks.t SET b = 'u' WHERE a = ? IF EXISTS",
+            (true, _) => "UPDATE ks.t SET b = 'u' WHERE a = ? IF b = ?",
+            (false, 0) => "INSERT INTO ks.t (a, b) VALUES (1, 'x') IF NOT EXISTS",
+            (false, 1) => "INSERT INTO ks.t (a, b) VALUES (?, 'x') IF NOT EXISTS",
+            (false, _) => "INSERT INTO ks.t (a, b) VALUES (?, ?) IF NOT EXISTS",
+        };
+    }
     match (select, markers) {
         (true, 0) => "SELECT a, b FROM ks.t",
         (true, 1) => "SELECT a, b FROM ks.t WHERE a = ?",
@@ -232,8 +247,10 @@ fn all_cases(cfg: SessCfg) -> Vec<Case> {
                                     for tracing in [false, true] {
                                         for idem in [false, true] {
                                             for &cached in cacheds {
-                                                out.push(Case { cfg, api, select, vals, page, ts, cons, serial, tracing, idem, cached, btype, bmix, n });
-                                                n += 1;
+                                                for lwt in [false, true] {
+                                                    out.push(Case { cfg, api, select, vals, page, ts, cons, serial, tracing, idem, cached, btype, bmix, lwt, n });
+                                                    n += 1;
+                                                }
                                             }
                                         }
                                     }
@@ -255,6 +272,9 @@ enum TsExp {
     Absent,
     Exact(i64),
     Generated,
+    /// LWT-marked statement, generator configured, no explicit timestamp: neither C09 nor C18 says whether a generated
+    /// timestamp is sent (the unchanged driver sends one); if present it must be one the generator handed out
+    GeneratedOrAbsent,
 }
 
 struct Exp {
@@ -276,6 +296,7 @@ fn expect_common(c: &Case) -> Exp {
     };
     let ts = match (c.explicit_ts(), c.cfg.generator) {
         (Some(t), _) => TsExp::Exact(t),
+        (None, true) if c.lwt => TsExp::GeneratedOrAbsent,
         (None, true) => TsExp::Generated,
         (None, false) => TsExp::Absent,
     };
@@ -335,7 +356,9 @@ fn diff_ts(got: Option<i64>, exp: &TsExp, generated: &[i64]) -> Option<String> {
         (TsExp::Absent, Some(t)) => Some(format!("timestamp {t} although none was set and no generator is configured")),
         (TsExp::Exact(e), Some(t)) if t == *e => None,
         (TsExp::Exact(e), other) => Some(format!("timestamp {other:?} instead of the statement's explicit {e}")),
-        (TsExp::Generated, Some(t)) if generated.contains(&t) => None,
+        (TsExp::GeneratedOrAbsent, None) => None,
+        (TsExp::Generated | TsExp::GeneratedOrAbsent, Some(t)) if generated.contains(&t) => None,
+        (TsExp::GeneratedOrAbsent, other) => Some(format!("timestamp {other:?} is not one the configured generator handed out during the call ({generated:?})")),
         (TsExp::Generated, other) => Some(format!("timestamp {other:?} is not one the configured generator handed out during the call ({generated:?})")),
     }
 }
@@ -356,6 +379,7 @@ struct Env {
 async fn setup(cfg: SessCfg) -> Env {
     let mut node = NodeSpec::new("dc1", "r1", vec![-100, 4000]);
     node.metadata_id = cfg.ext;
+    node.lwt_mark = Some(0x8000_0000); // ScyllaDB's LWT_OPTIMIZATION_META_BIT_MASK
     let cluster = MockCluster::builder()
         .node(node)
         .keyspace(KeyspaceSpec::simple("ks", 1).table(TableSpec::new("t").pk("a", "int").col("b", "text")))
@@ -364,9 +388,10 @@ async fn setup(cfg: SessCfg) -> Env {
         .unwrap_or_else(|e| vcore::machinery_error(&e));
     let cols = vec![col("ks", "t", "a", ColType::Int), col("ks", "t", "b", ColType::Text)];
     let rows = vec![vec![val::int(1), val::text("one")], vec![val::int(2), val::text("two")], vec![val::int(3), val::text("three")]];
-    for select in [true, false] {
+    for (select, lwt) in [(true, false), (false, false), (true, true), (false, true)] {
         for m in 0..3usize {
-            let mut s = Script::new(stmt_text(select, m)).bind(cols[..m].to_vec(), if m > 0 { vec![0] } else { vec![] });
+            let mut s = Script::new(stmt_text(select, m, lwt)).bind(cols[..m].to_vec(), if m > 0 { vec![0] } else { vec![] });
+            s.lwt = lwt;
             if select {
                 let (cols2, rows2) = (cols.clone(), rows.clone());
                 s = s.result(cols.clone()).reply(move |ctx| match paginate(rows2.clone(), None, ctx.params()) {
@@ -392,10 +417,13 @@ async fn setup(cfg: SessCfg) -> Env {
         .unwrap_or_else(|e| vcore::machinery_error(&e));
     let handle = ExecutionProfile::builder().consistency(Consistency::EachQuorum).serial_consistency(None).build().into_handle();
     let mut prepared = HashMap::new();
-    for select in [true, false] {
+    for (select, lwt) in [(true, false), (false, false), (true, true), (false, true)] {
         for m in 0..3usize {
-            let t = stmt_text(select, m);
+            let t = stmt_text(select, m, lwt);
             let ps = session.prepare(t).await.unwrap_or_else(|e| vcore::machinery_error(&format!("prepare {t:?}: {e}")));
+            if ps.is_confirmed_lwt() != lwt {
+                vcore::machinery_error(&format!("is_confirmed_lwt() = {} for {t:?}: the scripted LWT mark did not arrive", ps.is_confirmed_lwt()));
+            }
             prepared.insert(t, ps);
         }
     }
@@ -410,9 +438,9 @@ impl Env {
         for e in entries {
             if let LogKind::Sent { response, .. } = &e.kind {
                 if let Response::Prepared(p) = &response.response {
-                    for select in [true, false] {
+                    for (select, lwt) in [(true, false), (false, false), (true, true), (false, true)] {
                         for m in 0..3usize {
-                            let t = stmt_text(select, m);
+                            let t = stmt_text(select, m, lwt);
                             if p.id == prepared_id(t) {
                                 self.node_meta_id.lock().unwrap().insert(t.to_string(), p.result_metadata_id.clone());
                             }
@@ -506,7 +534,7 @@ async fn drive(env: &Env, c: &Case) -> Result<usize, String> {
                     1 => 1,
                     _ => 2,
                 };
-                let text = stmt_text(false, markers);
+                let text = stmt_text(false, markers, c.lwt);
                 if kind == 'U' {
                     batch.append_statement(Statement::new(text));
                 } else {
@@ -565,7 +593,7 @@ async fn check_one(r: &Report, env: &Env, c: &Case) {
     if c.api == Api::Batch {
         for (kind, shape) in batch_mix(c.bmix) {
             if kind == 'U' && shape != 0 {
-                must_prepare.insert(stmt_text(false, if shape == 1 { 1 } else { 2 }));
+                must_prepare.insert(stmt_text(false, if shape == 1 { 1 } else { 2 }, c.lwt));
             }
         }
     }
@@ -656,7 +684,7 @@ async fn check_one(r: &Report, env: &Env, c: &Case) {
                     .into_iter()
                     .enumerate()
                     .map(|(i, (k, shape))| {
-                        let text = stmt_text(false, if shape == 0 { 0 } else if shape == 1 { 1 } else { 2 });
+                        let text = stmt_text(false, if shape == 0 { 0 } else if shape == 1 { 1 } else { 2 }, c.lwt);
                         let values = wire_values(shape, c.a().wrapping_add(i as i32), c.b());
                         if k == 'U' && shape == 0 { BatchStmt::Query { text: text.to_string(), values } } else { BatchStmt::Prepared { id: prepared_id(text), values } }
                     })
